@@ -2,7 +2,7 @@
 import numpy as np
 import torch
 
-from harness import coqio, cparse, nets, compiled, gennet
+from harness import coqio, cparse, nets, compiled, gennet, protocols
 from harness.common import Check
 from translate import gatecode as t_gc, wrapper as t_wr
 
@@ -175,6 +175,8 @@ def run(ck: Check):
                     ck.broke("correspondence", "validate_exhaustive", f"validator rejects {case['name']} but the mirror finds no failing input")
     # (iii) generator model: the parsed text IS gen_net (architecture), and the architecture is well formed -> C02_logic_net applies
     gennet.check_generator(ck, [(idx, spec, p, case) for idx, spec, p, case, _ in items])
+    protocols.conv_protocol(ck, "raw", "")
+    protocols.conv_protocol(ck, "walsh", "")
     ck.extra["programs"] = ck.distribution.get("programs_validated_in_kernel_for_all_inputs", 0) + ck.distribution.get("programs_safe_checked_in_kernel", 0)
     ck.extra["disagreements_checked"] = ck.distribution.get("rows_compared", 0)
     ck.extra["explanation"] = ("programs = emitted translation units parsed, compared syntactically with the proved generator model and checked by the verified validator inside the Coq kernel "
